@@ -103,6 +103,7 @@ Theorem C01_select_consts :
   select_BLOCKS_IN_SUPERBLOCK = 64 /\ select_BLOCK_SIZE = 64 /\ select_BLOCK_MASK = N.ones 6 /\
   select_SUPERBLOCK_SIZE = select_BLOCKS_IN_SUPERBLOCK * select_BLOCK_SIZE.
 Proof. exact select_consts_ok. Qed.
+Print Assumptions C01_select_consts.
 
 (* A. Transformation::word_unchecked: word k of the (identity or complemented) sequence, the partial
    last word masked; an index past the last word leaves the buffer *)
